@@ -365,9 +365,11 @@ func ParseNameAddrPVal(h HdrT, buf []byte, offs int, pfrom *PFromBody) (int, Err
 				if pfrom.state == fbParamName {
 					pfrom.state = fbNewParam
 					pfrom.pend = i
+					setFromParamVal(buf, pfrom) // param without value
 				} else if pfrom.state == fbPossibleParamName {
 					pfrom.state = fbNewPossibleParam
 					pfrom.pend = i
+					setFromParamVal(buf, pfrom) // param without value
 				}
 			default:
 				if pfrom.state == fbNewParam {
@@ -398,6 +400,7 @@ func ParseNameAddrPVal(h HdrT, buf []byte, offs int, pfrom *PFromBody) (int, Err
 				} else {
 					pfrom.state = fbNewPossibleParam
 				}
+				setFromParamVal(buf, pfrom) // param without value
 			default:
 				// no other char allowed after a param name token
 				// (the whitespace was already skipped in fb*ParamName)
@@ -549,6 +552,13 @@ endOfHdr:
 		fbPossibleParamNameEnd, fbParamName, fbPossibleParamName:
 		// uri or possible uri already found, make sure the params end is set
 		//pfrom.Params.Set(int(pfrom.Params.Offs), i)
+		if pfrom.state == fbParamName ||
+			pfrom.state == fbPossibleParamName {
+			pfrom.pend = i
+		}
+		if pfrom.pstart < pfrom.pend {
+			setFromParamVal(buf, pfrom) // last param has no value
+		}
 		if pfrom.Params.Offs != 0 {
 			pfrom.Params.Extend(i)
 		}
